@@ -1,4 +1,220 @@
+/* eng_rng.c - C15: random streams depend on the seed alone and are the documented generator.
+ *
+ * Plan lines:
+ *   INIT nthreads schedseed switchpct
+ *   D t kind arg        dirty prefix of thread t: draws made BEFORE seeding (arbitrary history)
+ *   SEED t code         thread t seeds with seed_of(code) (default: derived from t)
+ *   C t kind arg        post-seed call of thread t; its result is recorded bit for bit
+ * Real threads (TLS is per real thread) are parked and released by the baton scheduler between any
+ * two calls.  Oracle: the recorded post-seed outputs equal (a) those of the same call list in a fresh
+ * thread with no prefix and no neighbours, (b) for the raw calls before the first non-raw call, an
+ * independent sfc64 + splitmix64 x4 + 20 discards implementation.
+ */
 #include "core.h"
-static void g(plan *p, uint64_t seed, const char *cfg) { (void)p; (void)seed; (void)cfg; }
-static void r(const plan *p) { (void)p; }
-const engine eng_rng = { .name = "rng", .props = "", .gen = g, .run = r, .rule = "stub" };
+#include "baton.h"
+#include <pthread.h>
+#include <stdlib.h>
+#include <string.h>
+#include "cmb_random.h"
+#include "cmb_logger.h"
+
+int __real_pthread_create(pthread_t *, const pthread_attr_t *, void *(*)(void *), void *);
+int __real_pthread_join(pthread_t, void **);
+
+#define MAXT 4
+#define MAXCALLS 400
+#define NKIND 24
+
+static const plan *P;
+static int nthreads;
+static uint64_t out[MAXT][MAXCALLS], ref[MAXT][MAXCALLS];
+static int nout[MAXT], nref[MAXT];
+
+static uint64_t bits_of(double d) { uint64_t v; memcpy(&v, &d, sizeof v); return v; }
+static uint64_t seed_of(int64_t code)
+{
+    switch (code) {
+        case 0: return 0; case 1: return 1; case 2: return UINT64_MAX; case 3: return 0x0000DEAD5EED0000ull;
+        default: return mix64(0x5eed, (uint64_t)code);
+    }
+}
+
+/* independent reference generator */
+typedef struct { uint64_t a, b, c, d; } rsfc;
+static uint64_t r_splitmix(uint64_t *s)
+{
+    uint64_t z = (*s += 0x9e3779b97f4a7c15ull);
+    z = (z ^ (z >> 30)) * 0xbf58476d1ce4e5b9ull;
+    z = (z ^ (z >> 27)) * 0x94d049bb133111ebull;
+    return z ^ (z >> 31);
+}
+static uint64_t r_next(rsfc *g)
+{
+    const uint64_t tmp = g->a + g->b + g->d++;
+    g->a = g->b ^ (g->b >> 11);
+    g->b = g->c + (g->c << 3);
+    g->c = ((g->c << 24) | (g->c >> 40)) + tmp;
+    return tmp;
+}
+static void r_seed(rsfc *g, uint64_t seed)
+{
+    uint64_t s = seed;
+    g->a = r_splitmix(&s); g->b = r_splitmix(&s); g->c = r_splitmix(&s); g->d = r_splitmix(&s);
+    for (int i = 0; i < 20; i++) (void)r_next(g);
+}
+
+static uint64_t do_call(int kind, int64_t arg)
+{
+    static const double shapes[] = { 0.5, 1.0, 2.5, 7.0 };
+    static const double probs[] = { 0.1, 0.5, 0.9, 0.25 };
+    const unsigned a = (unsigned)((uint64_t)arg % 4);
+    switch (((kind % NKIND) + NKIND) % NKIND) {
+        case 0: return cmb_random_sfc64();
+        case 1: return bits_of(cmb_random());
+        case 2: return bits_of(cmb_random_uniform(-1.0, 3.0 + a));
+        case 3: return bits_of(cmb_random_std_normal());
+        case 4: return bits_of(cmb_random_std_exponential());
+        case 5: return (uint64_t)cmb_random_flip();
+        case 6: return bits_of(cmb_random_gamma(shapes[a] + 1.0, 2.0));
+        case 7: return (uint64_t)cmb_random_geometric(probs[a]);
+        case 8: return (uint64_t)cmb_random_bernoulli(probs[a]);
+        case 9: return (uint64_t)cmb_random_dice(1, 6 + (long)a);
+        case 10: return (uint64_t)cmb_random_poisson(0.5 + 3.0 * a);
+        case 11: return (uint64_t)cmb_random_binomial(3 + 5 * a, probs[a]);
+        case 12: return bits_of(cmb_random_triangular(0.0, 1.0 + a, 5.0));
+        case 13: return bits_of(cmb_random_std_beta(shapes[a] + 1.0, 2.0));
+        case 14: return bits_of(cmb_random_weibull(shapes[a] + 1.0, 1.5));
+        case 15: return bits_of(cmb_random_erlang(1 + a, 2.0));
+        case 16: return bits_of(cmb_random_normal(1.0, 2.0 + a));
+        case 17: return bits_of(cmb_random_exponential(1.0 + a));
+        case 18: return bits_of(cmb_random_std_gamma(shapes[a] + 1.0));
+        case 19: return bits_of(cmb_random_lognormal(0.0, 0.5));
+        case 20: return bits_of(cmb_random_chisquared(1.0 + a));
+        case 21: return (uint64_t)cmb_random_negative_binomial(1 + a, probs[(a + 1) % 4]);
+        case 22: return bits_of(cmb_random_rayleigh(1.0 + a));
+        default: return bits_of(cmb_random_PERT(0.0, 1.0 + a, 6.0));
+    }
+}
+
+static uint64_t seed_for_thread(int t)
+{
+    for (int i = 0; i < P->n; i++) if (pis(&P->l[i], "SEED") && (int)((uint64_t)pa(&P->l[i], 0) % (uint64_t)nthreads) == t) return seed_of(pa(&P->l[i], 1));
+    return seed_of(100 + t);
+}
+
+static void *thread_script(void *vp)
+{
+    const int t = (int)(intptr_t)vp;
+    /* dirty prefix: whatever this thread did before (an earlier trial, a half-used bit cache, cached parameters, an old seeding) */
+    for (int i = 0; i < P->n; i++) {
+        const pline *l = &P->l[i];
+        if (!pis(l, "D") || (int)((uint64_t)pa(l, 0) % (uint64_t)nthreads) != t) continue;
+        if (pa(l, 1) == 99) cmb_random_initialize(seed_of(pa(l, 2))); else (void)do_call((int)pa(l, 1), pa(l, 2));
+        baton_yield();
+    }
+    cmb_random_initialize(seed_for_thread(t));
+    baton_yield();
+    for (int i = 0; i < P->n; i++) {
+        const pline *l = &P->l[i];
+        if (!pis(l, "C") || (int)((uint64_t)pa(l, 0) % (uint64_t)nthreads) != t || nout[t] >= MAXCALLS) continue;
+        out[t][nout[t]++] = do_call((int)pa(l, 1), pa(l, 2));
+        g_stats.events++;
+        baton_yield();
+    }
+    if (cmb_random_curseed() != seed_for_thread(t)) viol("C15", "curseed", "thread %d: cmb_random_curseed() differs from the seed it used", t);
+    return NULL;
+}
+
+static void *thread_reference(void *vp)
+{
+    const int t = (int)(intptr_t)vp;
+    cmb_random_initialize(seed_for_thread(t));
+    for (int i = 0; i < P->n; i++) {
+        const pline *l = &P->l[i];
+        if (!pis(l, "C") || (int)((uint64_t)pa(l, 0) % (uint64_t)nthreads) != t || nref[t] >= MAXCALLS) continue;
+        ref[t][nref[t]++] = do_call((int)pa(l, 1), pa(l, 2));
+    }
+    return NULL;
+}
+
+static void rng_run(const plan *p)
+{
+    cmb_logger_flags_off(CMB_LOGGER_INFO | CMB_LOGGER_WARNING);
+    P = p;
+    nthreads = 2; uint64_t sched = 1; int pct = 60;
+    for (int i = 0; i < p->n; i++) if (pis(&p->l[i], "INIT")) {
+        nthreads = 1 + (int)((uint64_t)pa(&p->l[i], 0) % MAXT); sched = (uint64_t)pa(&p->l[i], 1); pct = (int)((uint64_t)pa(&p->l[i], 2) % 101); break;
+    }
+    memset(nout, 0, sizeof nout); memset(nref, 0, sizeof nref);
+    baton_begin(sched, pct);
+    for (int t = 0; t < nthreads; t++) baton_spawn(thread_script, (void *)(intptr_t)t);
+    baton_run_all();
+    baton_end();
+    g_stats.faults = baton_switches();
+    bool dirty = false;
+    for (int i = 0; i < p->n; i++) if (pis(&p->l[i], "D")) dirty = true;
+    for (int t = 0; t < nthreads; t++) {
+        pthread_t th;
+        __real_pthread_create(&th, NULL, thread_reference, (void *)(intptr_t)t);
+        __real_pthread_join(th, NULL);
+        if (nref[t] != nout[t]) { viol("C15", "harness", "reference call count differs"); continue; }
+        for (int k = 0; k < nout[t]; k++) {
+            TR3("draw", t, k, out[t][k]);
+            if (out[t][k] != ref[t][k]) {
+                /* which call kind was it? */
+                int kind = -1, seen = 0;
+                for (int i = 0; i < p->n; i++) { const pline *l = &p->l[i]; if (pis(l, "C") && (int)((uint64_t)pa(l, 0) % (uint64_t)nthreads) == t) { if (seen == k) { kind = (int)((pa(l, 1) % NKIND + NKIND) % NKIND); break; } seen++; } }
+                viol("C15", dirty ? "depends-on-history-or-neighbours" : "depends-on-neighbours",
+                     "thread %d call #%d (kind %d): %#" PRIx64 " after seeding, but %#" PRIx64 " in a fresh thread with the same seed and call list", t, k, kind, out[t][k], ref[t][k]);
+                break;
+            }
+        }
+        /* raw stream against the independent implementation, up to the first non-raw call */
+        rsfc g; r_seed(&g, seed_for_thread(t));
+        int k = 0;
+        for (int i = 0; i < p->n; i++) {
+            const pline *l = &p->l[i];
+            if (!pis(l, "C") || (int)((uint64_t)pa(l, 0) % (uint64_t)nthreads) != t || k >= nout[t]) continue;
+            if (((pa(l, 1) % NKIND) + NKIND) % NKIND != 0) break;
+            const uint64_t want = r_next(&g);
+            if (out[t][k] != want) { viol("C15", "not-documented-generator", "thread %d: raw output #%d is %#" PRIx64 ", sfc64 seeded by splitmix64 with 20 discards gives %#" PRIx64, t, k, out[t][k], want); break; }
+            k++;
+        }
+        if (k >= 3) PROBE("rng.raw_prefix_ge3_compared");
+    }
+    if (dirty) PROBE("rng.dirty_prefix");
+    g_stats.nontrivial = dirty && g_stats.faults >= 1;
+}
+
+static void rng_gen(plan *p, uint64_t seed, const char *cfg)
+{
+    (void)cfg;
+    vrng r; vrng_seed(&r, seed);
+    const int nt = 1 + (int)vrng_below(&r, MAXT);
+    plan_add(p, "INIT", 3, (int64_t)(nt - 1), (int64_t)(vrng_next(&r) >> 16), (int64_t)(20 + vrng_below(&r, 81)));
+    for (int t = 0; t < nt; t++) {
+        if (vrng_chance(&r, 1, 2)) plan_add(p, "SEED", 2, (int64_t)t, (int64_t)vrng_below(&r, vrng_chance(&r, 1, 3) ? 4 : 1000));
+        else if (t > 0 && vrng_chance(&r, 1, 3)) plan_add(p, "SEED", 2, (int64_t)t, (int64_t)7);     /* several threads share a seed */
+        const int nd = vrng_chance(&r, 1, 4) ? 0 : (int)vrng_below(&r, 30);
+        for (int i = 0; i < nd; i++) {
+            const unsigned z = (unsigned)vrng_below(&r, 10);
+            int64_t kind = (int64_t)vrng_below(&r, NKIND);
+            if (z < 3) kind = 5;                       /* flips: a partially consumed bit cache */
+            else if (z < 4) kind = 99;                 /* an earlier seeding */
+            else if (z < 6) kind = vrng_chance(&r, 1, 2) ? 6 : 7;  /* cached parameters */
+            plan_add(p, "D", 3, (int64_t)t, kind, (int64_t)vrng_below(&r, 8));
+        }
+        const bool rawonly = vrng_chance(&r, 1, 4);
+        const int nc = 3 + (int)vrng_below(&r, 40);
+        for (int i = 0; i < nc; i++) {
+            int64_t kind = rawonly || (i < 4 && vrng_chance(&r, 1, 2)) ? 0 : (int64_t)vrng_below(&r, NKIND);
+            if (!rawonly && vrng_chance(&r, 1, 5)) kind = 5;
+            plan_add(p, "C", 3, (int64_t)t, kind, (int64_t)vrng_below(&r, 8));
+        }
+    }
+}
+
+const engine eng_rng = {
+    .name = "rng", .props = "C15", .gen = rng_gen, .run = rng_run,
+    .rule = "runs with a dirty pre-seed history in at least one thread and at least one baton hand-over between threads",
+};
